@@ -192,10 +192,12 @@ def alMalloc (s : St) (size : Nat) (c : Choice) : Except Err (St × Handle) :=
   else
     .ok ((s.alloc size []).1, ⟨(s.alloc size []).2, size⟩)
 
-/-- `Free`: only capacities that are multiples of 32 and ≤ 32 KiB are pooled, under `alignedIndexes[cap]` -/
+/-- `Free`: only non-zero capacities that are multiples of 32 and ≤ 32 KiB are pooled, under `alignedIndexes[cap]`
+    (`size == 0 ||` is the repair of the zero-capacity defect: an empty foreign buffer — e.g. the `nil` slice a caller
+    passes to `Append` — used to be put into the 32-byte pool) -/
 def alFree (s : St) (x : Handle) (tag : Nat) : St :=
   let cap := (s.region x.rid).cap
-  if cap % minAligned ≠ 0 ∨ cap > maxAligned then s else poolPut s (classOf cap) tag x.rid
+  if cap = 0 ∨ cap % minAligned ≠ 0 ∨ cap > maxAligned then s else poolPut s (classOf cap) tag x.rid
 
 def alRealloc (s : St) (x : Handle) (size : Nat) (c : Choice) (tag : Nat) : Except Err (St × Handle) :=
   let r := s.region x.rid
@@ -229,7 +231,16 @@ inductive Op
   | append  (h : Nat) (more : Bytes) (c : Choice) (grow tag : Nat)
   | realloc (h size : Nat) (c : Choice) (grow tag : Nat)
   | free    (h tag : Nat)
+  | foreign (h cap len : Nat)          -- the client brings a buffer of its own (`make([]byte, len, cap)`, `nil`): a live
+                                       -- buffer the allocator did not hand out, later passed to Append / Realloc / Free
   deriving Repr
+
+/-- foreign capacities inside the contract of the aligned allocator: `Free` ignores them (zero, not a multiple of 32,
+    above the threshold) or they are exactly a class size (such a buffer **is** pooled, by design).  A multiple of 32 that
+    is not a class size (96) is filed under the next class and breaks a later `Malloc`
+    (`c20_aligned_foreign_cap_counterexample`): outside the contract, rejected by the model. -/
+def foreignOk (cap : Nat) : Bool :=
+  cap == 0 || cap % minAligned != 0 || decide (maxAligned < cap) || (List.range nClasses).any (fun i => cap == classSize i)
 
 def doMalloc (g : Cfg) (s : St) (size : Nat) (c : Choice) (grow : Nat) : Except Err (St × Handle) :=
   match g.kind with
@@ -289,6 +300,13 @@ def step (g : Cfg) (s : St) : Op → Except Err St
     match s.lookup h with
     | none => .error .bad
     | some x => .ok ((doFree g s x tag).remove h)
+  | .foreign h cap len =>
+    match s.lookup h with
+    | some _ => .error .bad
+    | none =>
+      if len ≤ cap ∧ (g.kind = .aligned → foreignOk cap = true) then
+        .ok ((s.alloc cap []).1.bind h ⟨(s.alloc cap []).2, len⟩)
+      else .error .bad
 
 /-- a program; operations the model rejects are skipped -/
 def run (g : Cfg) : St → List Op → St
